@@ -125,6 +125,26 @@ pub fn h2() -> u32 {
     }
 }
 
+/// Limits of the build under test when it is not the default one (stage `constrained`):
+/// VERIF_BUILD_LIMITS = "<levels>;<h,h,..>;<w,w,..>" as given to HBS_LMS_* at build time.
+pub fn build_limits() -> Option<(usize, Vec<u32>, Vec<u32>)> {
+    let v = std::env::var("VERIF_BUILD_LIMITS").ok()?;
+    let mut it = v.split(';');
+    let levels: usize = it.next()?.trim().parse().ok()?;
+    let hs: Vec<u32> = it.next()?.split(',').filter_map(|x| x.trim().parse().ok()).collect();
+    let ws: Vec<u32> = it.next()?.split(',').filter_map(|x| x.trim().parse().ok()).collect();
+    Some((levels, hs, ws))
+}
+
+/// is this parameter list inside the limits of the build under test (documented rule: length <=
+/// levels, h_i <= maximum height of level i, w_i >= minimum Winternitz parameter of level i)
+pub fn in_build_limits(lv: &[Level]) -> bool {
+    match build_limits() {
+        None => true,
+        Some((levels, hs, ws)) => lv.len() <= levels && lv.iter().enumerate().all(|(i, l)| i < hs.len() && i < ws.len() && l.h <= hs[i] && l.w >= ws[i]),
+    }
+}
+
 /// (height, w) pairs -> levels; in a hooks-off build the 4-leaf height is replaced by H5
 pub fn levels(spec: &[(u32, u32)]) -> Vec<Level> {
     spec.iter().map(|(h, w)| Level { h: if *h == 2 { h2() } else { *h }, w: *w }).collect()
